@@ -50,6 +50,8 @@ type Contracts struct {
 	BlockHash  common.Address // calldata depth : slot0 = BLOCKHASH(NUMBER-depth)
 	Looper     common.Address // SSTORE(9,7) then loops until out of gas
 	Burner     common.Address // loops until out of gas without touching state
+	Shape1     common.Address // Store code; storage trie = root branch { leaf L , branch {2 leaves} }  (see ShapeSlots)
+	Shape2     common.Address // Store code; storage trie = root branch { branch { leaf L , branch {2 leaves} } , leaf }
 	BlockHash2 common.Address // calldata depth : slot0 = BLOCKHASH(NUMBER-depth) | 1  (gas independent of the hash value)
 }
 
@@ -226,7 +228,7 @@ func New(fork string, nkeys int, extra types.GenesisAlloc) *Kit {
 	}
 	k.C = Contracts{Counter: ctrAddr(1), Store: ctrAddr(2), Copier: ctrAddr(3), KV: ctrAddr(4), Caller: ctrAddr(5),
 		Delegator: ctrAddr(6), Destructor: ctrAddr(7), Reverter: ctrAddr(8), Factory: ctrAddr(9), Factory2: ctrAddr(10),
-		Prober: ctrAddr(11), BlockHash: ctrAddr(12), Looper: ctrAddr(13), Burner: ctrAddr(14), BlockHash2: ctrAddr(15)}
+		Prober: ctrAddr(11), BlockHash: ctrAddr(12), Looper: ctrAddr(13), Burner: ctrAddr(14), BlockHash2: ctrAddr(15), Shape1: ctrAddr(16), Shape2: ctrAddr(17)}
 	one := big.NewInt(1)
 	st := func(kv ...int64) map[common.Hash]common.Hash {
 		m := map[common.Hash]common.Hash{}
@@ -249,6 +251,9 @@ func New(fork string, nkeys int, extra types.GenesisAlloc) *Kit {
 	alloc[k.C.BlockHash] = types.Account{Code: CodeBlockHash, Nonce: 1, Balance: one}
 	alloc[k.C.Looper] = types.Account{Code: CodeLooper, Nonce: 1, Balance: one}
 	alloc[k.C.Burner] = types.Account{Code: CodeBurner, Nonce: 1, Balance: one}
+	sh := ShapeSlots()
+	alloc[k.C.Shape1] = types.Account{Code: CodeStore, Nonce: 1, Balance: one, Storage: st(int64(sh.L1), 11, int64(sh.B1a), 12, int64(sh.B1b), 13)}
+	alloc[k.C.Shape2] = types.Account{Code: CodeStore, Nonce: 1, Balance: one, Storage: st(int64(sh.L2), 21, int64(sh.B2a), 22, int64(sh.B2b), 23, int64(sh.X2), 24)}
 	alloc[k.C.BlockHash2] = types.Account{Code: CodeBlockHash2, Nonce: 1, Balance: one, Storage: st(0, 1)}
 	// system contracts
 	alloc[params.BeaconRootsAddress] = types.Account{Nonce: 1, Code: params.BeaconRootsCode, Balance: common.Big0}
@@ -513,4 +518,54 @@ func (k *Kit) Sign(sp TxSpec, nonce uint64, baseFee *big.Int, authNonce uint64) 
 			To: sp.To, Value: sp.Value, Data: sp.Data, AccessList: sp.Access}
 	}
 	return types.MustSignNewTx(key, k.Signer, txd)
+}
+
+// Shape holds storage slot numbers whose hashed keys force a particular storage-trie shape.
+//
+//	Shape1: root = branch with exactly two children: nibble x -> leaf L1, nibble y -> BRANCH {B1a, B1b}
+//	Shape2: root = branch {p -> branch { q1 -> leaf L2, q2 -> BRANCH {B2a, B2b} }, p2 -> leaf X2}
+//
+// Clearing L1 (L2) leaves the parent branch with ONE child which is an otherwise untouched, hashed BRANCH
+// node: the collapse has to resolve that sibling, and the witness has to contain it.
+type Shape struct{ L1, B1a, B1b, L2, B2a, B2b, X2 uint64 }
+
+var shapeCache *Shape
+
+func nib(s uint64, i int) byte {
+	h := crypto.Keccak256(common.BigToHash(new(big.Int).SetUint64(s)).Bytes())
+	if i%2 == 0 {
+		return h[i/2] >> 4
+	}
+	return h[i/2] & 0x0f
+}
+
+// ShapeSlots searches small slot numbers with the required hashed-key prefixes.
+func ShapeSlots() Shape {
+	if shapeCache != nil {
+		return *shapeCache
+	}
+	var sh Shape
+	const lim = 200000
+	find := func(from uint64, ok func(s uint64) bool) uint64 {
+		for s := from; s < lim; s++ {
+			if ok(s) {
+				return s
+			}
+		}
+		panic("blockkit: no slot with the required hashed prefix")
+	}
+	// Shape1
+	sh.L1 = 1
+	sh.B1a = find(2, func(s uint64) bool { return nib(s, 0) != nib(sh.L1, 0) })
+	sh.B1b = find(sh.B1a+1, func(s uint64) bool { return nib(s, 0) == nib(sh.B1a, 0) && nib(s, 1) != nib(sh.B1a, 1) })
+	// Shape2
+	sh.L2 = 1
+	p := nib(sh.L2, 0)
+	sh.B2a = find(2, func(s uint64) bool { return nib(s, 0) == p && nib(s, 1) != nib(sh.L2, 1) })
+	sh.B2b = find(sh.B2a+1, func(s uint64) bool {
+		return nib(s, 0) == p && nib(s, 1) == nib(sh.B2a, 1) && nib(s, 2) != nib(sh.B2a, 2)
+	})
+	sh.X2 = find(2, func(s uint64) bool { return nib(s, 0) != p })
+	shapeCache = &sh
+	return sh
 }
